@@ -1,3 +1,4 @@
+import Unimock.Generated.Mirrors
 import Unimock.Model.Render
 import Unimock.Generated.Counter
 import Unimock.Model.Codegen.Matching
@@ -149,5 +150,10 @@ namespace Unimock.Codegen
 theorem C19_debug_inputs_positions (s : MethodShape) :
     (genMockFn s).debugExprs = s.params.map debugExpr ∧ (genMockFn s).debugExprs.length = s.params.length := by
   simp [genMockFn]
+
+/-- the bundled mocks print the upstream trait's name: for each mirrored trait the declared name (what `MockFnInfo.path`
+    carries into every message) is the mirrored trait's own (table regenerated on every run from `/repo/src/mock/*.rs`) -/
+theorem C19_mirrored_traits_keep_their_names :
+    (Generated.mirrorNamePairs.all fun p => p.1 == p.2) = true := by decide
 
 end Unimock.Codegen
